@@ -218,6 +218,10 @@ def fingerprint(t):
     if k in _fp_cache:
         return _fp_cache[k][1]
     import math as _m
+    if _NUM_ENV[0] is not None:
+        v = _fp(t)                      # numeric refutation mode: errors propagate (the sample is discarded)
+        _fp_cache[k] = (t, v)
+        return v
     try:
         v = _fp(t)
     except (ZeroDivisionError, OverflowError, ValueError):
@@ -226,6 +230,9 @@ def fingerprint(t):
         _fp_cache.clear()
     _fp_cache[k] = (t, v)
     return v
+
+
+_NUM_ENV = [None]       # (int model dict name->int, seed) when evaluating for a numeric refutation
 
 
 def _fp(t):
@@ -243,6 +250,13 @@ def _fp(t):
     kind = t.decl().kind()
     kids = t.children()
     if t.num_args() == 0:
+        env = _NUM_ENV[0]
+        if env is not None:
+            if t.sort() == z3.IntSort():
+                return env[0].get(t.decl().name(), 3)
+            if t.sort() == z3.BoolSort():
+                return env[0].get(t.decl().name(), False)
+            return _hashf(("real", t.decl().name(), env[1]), 0.3, 1.7)
         if t.sort() == z3.IntSort():
             return 3 + int(_hashf(("int", t.decl().name()), 0, 37))
         if t.sort() == z3.BoolSort():
@@ -302,7 +316,46 @@ def _fp(t):
     if name == "uinv":
         return 1.0 / f(kids[0])
     args = tuple(round(f(c), 9) if not isinstance(f(c), bool) else f(c) for c in kids)
+    if _NUM_ENV[0] is not None:
+        return _hashf((name, args, _NUM_ENV[0][1]), -1.5, 1.5)
     return _hashf((name, args))
+
+
+def refute_numeric(goal, hyps, tries=5):
+    """search for a counter-model by evaluation: integer constants from a z3 model of the hypotheses, real constants and
+    uninterpreted functions interpreted pseudo-randomly; accepted only if EVERY hypothesis evaluates to true and the goal to
+    false under that interpretation (then it is a genuine counter-model: sqrt is the real square root, activations a fixed
+    smooth function).  Returns the z3 model (for the integer part) or None."""
+    sv = z3.Solver()
+    sv.set("timeout", 5000)
+    lin = [abstract_mul(h) for h in hyps]
+    sv.add(*lin)
+    if sv.check() != z3.sat:
+        return None
+    m = sv.model()
+    ints = {}
+    for d in m.decls():
+        if d.arity() == 0:
+            v = m[d]
+            if z3.is_int_value(v):
+                ints[d.name()] = v.as_long()
+            elif z3.is_true(v) or z3.is_false(v):
+                ints[d.name()] = z3.is_true(v)
+    saved = dict(_fp_cache)
+    try:
+        for seed in range(tries):
+            _fp_cache.clear()
+            _NUM_ENV[0] = (ints, seed)
+            try:
+                if all(_fp(h) is True for h in hyps) and _fp(goal) is False:
+                    return m
+            except (ZeroDivisionError, OverflowError, ValueError, TypeError):
+                continue
+    finally:
+        _NUM_ENV[0] = None
+        _fp_cache.clear()
+        _fp_cache.update(saved)
+    return None
 
 
 def _leaf_sig(t):
@@ -492,7 +545,7 @@ def prove_by_cases(goal, extra=(), max_leaves=600):
     leaves = [0]
     base = relevant(CTX.all_hyps() + list(extra), [goal])
     inc = z3.Solver()
-    inc.set("timeout", 5000)
+    inc.set("timeout", 20000)
     inc.add(*base)
 
     def decided(a):
@@ -610,6 +663,9 @@ def refute_or_prove(e, extra=(), rlimit=None):
                 _ABS_ALT[0] = False
             if r == "unsat":
                 return "proved", None
+        m = refute_numeric(e, hy)
+        if m is not None:
+            return "refuted", m
     r, m = check_sat(hy + [goal], rlimit)
     if r == "unsat":
         return "proved", None
